@@ -710,6 +710,11 @@ static int PolicyVerificationResult_create(KSI_PolicyVerificationResult **result
 		res = KSI_OUT_OF_MEMORY;
 		goto cleanup;
 	}
+	/* The cleanup path releases the object through its destructor. */
+	tmp->ref = 1;
+	tmp->ruleResults = NULL;
+	tmp->policyResults = NULL;
+	tmp->finalResult.statusMessage = NULL;
 
 	res = KSI_RuleVerificationResultList_new(&tmp->ruleResults);
 	if (res != KSI_OK) {
